@@ -285,6 +285,26 @@ V16 = [0, 1, 0x2000, 0x0800, 0x8000, 0xFFFF, 0x00FF, 0xFF00, 0x2800]
 ATTR_GETTERS = [4, 6, 7, 8, 9, 10, 11, 12, 13, 14]   # getters whose failure leaves only their own TLV free
 
 
+def rnd_name(rng):
+    """names / SSIDs are arbitrary byte strings: every length 0..40 and awkward contents (trailing or
+    embedded NULs, all zeros, 0xFF, UCS-2 style)"""
+    n = rng.randrange(0, 41)
+    k = rng.random()
+    if k < 0.5:
+        b = bytes(rng.randrange(256) for _ in range(n))
+    elif k < 0.6:
+        b = bytes(n)
+    elif k < 0.7:
+        b = bytes(rng.randrange(1, 256) for _ in range(max(0, n - 2))) + bytes(min(n, 2))
+    elif k < 0.8:
+        b = "".join(chr(0x41 + rng.randrange(26)) for _ in range(n // 2)).encode("utf-16le")
+    elif k < 0.9:
+        b = bytes([0xFF]) * n
+    else:
+        b = bytes([0]) + bytes(rng.randrange(256) for _ in range(max(0, n - 1)))
+    return b[:40]
+
+
 def rnd_attrs(rng, wifi):
     def v32():
         return rng.choice(V32) if rng.random() < 0.7 else rng.randrange(1 << 32)
@@ -292,8 +312,7 @@ def rnd_attrs(rng, wifi):
              ipv6=bytes(rng.randrange(256) for _ in range(16)), speed=v32(), iftype=v32(),
              flags=rng.choice(V16) if rng.random() < 0.6 else rng.randrange(1 << 16))
     if wifi:
-        a.update(wmode=rng.choice([0, 1, 2, 255]), bssid=rnd_mac(rng),
-                 ssid=bytes(rng.randrange(256) for _ in range(rng.randrange(0, 41))),
+        a.update(wmode=rng.choice([0, 1, 2, 255]), bssid=rnd_mac(rng), ssid=rnd_name(rng),
                  rate=rng.choice([0, 1, 108, 0xFF, 0x100, 0xFFFF, rng.randrange(65536)]),
                  rssi=rng.choice([-128, -127, -1, 0, 1, 127, -57, rng.randrange(-128, 128)]))
     return a
@@ -306,6 +325,8 @@ def sc_c04(name, seed, n):
         wifi = rng.choice([0, 1])
         hostlen = i % 41 if rng.random() < 0.5 else rng.randrange(0, 41)
         host = bytes(rng.choice([0x41 + rng.randrange(26), rng.randrange(256)]) for _ in range(hostlen))
+        if rng.random() < 0.3:
+            host = rnd_name(rng)
         s.cfg(host=host, icon=(100, 1), name=(10, 2), hwid=b"")
         own = rnd_mac(rng)
         s.boot(1, own, mtu=rng.choice(MTUS), wifi=wifi, fill=rng.choice([0xA5, 0x5A, 0, 0xFF]), **rnd_attrs(rng, wifi))
@@ -486,6 +507,11 @@ def sc_c08(name, seed, mtu, isize, nsize, hwid, tier):
         s.rx(1, query_large(m, OWN, typ, rng.choice([0, 5]), seq=seq))
     s.rx(1, query_large(m, OWN, 0x0E, 0, seq=0))
     s.rx(1, query_large(m, OWN, 0x11, 0, seq=0, tos=1))
+    # a second station walks the properties with its own sequence numbers while M1 is the active mapper:
+    # whatever is answered must answer that request
+    s.drain(1, query_large(X, OWN, 0x0E, 0, seq=0x4D01), 40, large=True)
+    s.rx(1, query_large(X, OWN, 0x11, 0, seq=0x4E02, eth_src=BR))
+    s.rx(1, query_large(m, OWN, 0x11, 1, seq=seq + 9))
     # the cached icon must not survive a Reset with a stale size: re-query after Reset
     s.rx(1, reset(m))
     s.rx(1, query_large(m, OWN, 0x0E, 0, seq=seq + 1))
@@ -803,6 +829,34 @@ def sc_c01(name, seed, mtu, wifi, pairs, nrand):
     return Scenario(name, s.lines)
 
 
+def sc_c01_load(name, seed, mtu):
+    rng = random.Random(seed)
+    s = Script()
+    s.cfg(host=b"load-host", icon=(2 * (mtu - 34) + 1, 3), name=(mtu - 34, 4), hwid=bytes(range(1, 65)))
+    s.boot(1, OWN, mtu=mtu, wifi=seed & 1, fill=0xA5, **attrs_default(wifi=seed & 1))
+    qcap = (mtu - 34) // 20
+    ecap = (mtu - 34) // 14
+    s.rx(1, discover(0, M1, gen=1, seq=1), all_entries=True)
+    for k in (qcap + 2, 1, qcap, qcap - 1):
+        for i in range(k):
+            src = bytes([2, 0x21, k & 0xFF, (seed >> 4) & 0xFF, i >> 8, i & 0xFF])
+            s.rx(1, probe(src, OWN, src, OWN, train=i & 1), all_entries=True)
+        s.rx(1, query(M1, OWN, seq=10 + (k & 0xFF)), all_entries=True)
+        s.rx(1, query(M1, OWN, seq=11 + (k & 0xFF)), all_entries=True)
+    for n in (ecap, ecap - 1, 1):
+        descs = [(i & 1, 0, OWN, PEER) for i in range(n)]
+        s.rx(1, emit(M1, OWN, descs, seq=300 + (n & 0xFF)), all_entries=True)
+    s.rx(1, emit(M1, OWN, [(1, 0, OWN, PEER)] * ecap, seq=400, declared=0xFFFF), all_entries=True)
+    for typ in (0x0E, 0x11, 0x13):
+        for off in (0, 1, mtu - 35, mtu - 34, mtu - 33, 2 * (mtu - 34), 65535):
+            s.rx(1, query_large(M1, OWN, typ, off & 0xFFFF, seq=500), all_entries=True)
+    stations = [rnd_mac(rng) for _ in range((mtu - 36) // 6)]
+    f = discover(0, M1, gen=1, seq=2, stations=stations[:-1] + [OWN])
+    s.rx(1, f[:mtu], all_entries=True)
+    s.rx(1, reset(M1), all_entries=True)
+    return Scenario(name, s.lines)
+
+
 def campaign_c01(seed, tier):
     rng = random.Random(seed)
     scs = []
@@ -817,6 +871,10 @@ def campaign_c01(seed, tier):
     rng.shuffle(pairs)
     per = 256
     i = 0
+    # valid but heavy sessions at every MTU residue class: full QueryResp / Emit / large-TLV frames
+    # are where off-by-a-header errors in the size arithmetic write or read past the buffers
+    for mtu in (MTUS_RESIDUES if tier == "quick" else MTUS_RESIDUES + [rng.randrange(576, 9217) for _ in range(60)]):
+        scs.append(sc_c01_load("c01-load-%d" % mtu, rng.randrange(1 << 30), mtu))
     for mtu in mtus:
         for j in range(0, len(pairs), per):
             scs.append(sc_c01("c01-%d-%d" % (mtu, j // per), rng.randrange(1 << 30), mtu, i % 2, pairs[j:j + per], nrand if j < 16 * per else 0))
